@@ -705,7 +705,26 @@ func genHistory(seed uint64, i int, length int, profile string) (int, []Op) {
 	if n > length {
 		n = length
 	}
-	ops := make([]Op, 0, n)
+	ops := make([]Op, 0, n+8)
+	put := func(c, id int) Op { o := *g.cat[c][id]; return Op{K: "put", C: c, O: &o} }
+	if profile == "lock" {
+		// scripted openings (then random operations): the situations a few random operations rarely line up
+		switch i % 4 {
+		case 0:
+			// a lock arriving for an object that is tombstoned AND already expired
+			g.cat[1][1] = &Obj{C: 1, ID: 1, T: 0, Size: 3, Exp: 1}
+			g.cat[1][4] = &Obj{C: 1, ID: 4, T: 1, Exp: -1, Assoc: 1}
+			g.cat[1][3] = &Obj{C: 1, ID: 3, T: 2, Exp: int64(5 + r.n(3)), Assoc: 1}
+			g.epoch, g.gcur = 3, 3
+			ops = append(ops, put(1, 1), put(1, 4), Op{K: "tick", E: 3}, put(1, 3))
+		case 2:
+			// the GC's clock ahead of the epoch source: expired for the collection, still locked for the engine's check
+			g.cat[1][1] = &Obj{C: 1, ID: 1, T: 0, Size: 3, Exp: 1}
+			g.cat[1][3] = &Obj{C: 1, ID: 3, T: 2, Exp: 2, Assoc: 1}
+			g.epoch, g.gcur = 2, 4
+			ops = append(ops, put(1, 1), put(1, 3), Op{K: "epoch", E: 2}, Op{K: "event", E: 4}, Op{K: "pass"})
+		}
+	}
 	for len(ops) < n {
 		ops = append(ops, g.op())
 	}
